@@ -455,7 +455,7 @@ def case_repo_tests(ctx):
     out = tempfile.mktemp(suffix=".json")
     env = dict(os.environ, VMON_ALLOC_REPORT=out, PYTHONPATH=VERIF + os.pathsep + os.path.join(VERIF, ".deps"))
     p = subprocess.run([sys.executable, "-m", "pytest", "-q", "-p", "no:cacheprovider", "-p", "vmon.monitors.pytest_alloc",
-                        "--timeout=900", "--continue-on-collection-errors", "-x", "-q", "tests"], cwd=REPO, env=env,
+                        "--timeout=900", "--continue-on-collection-errors", "-q", "tests"], cwd=REPO, env=env,
                        capture_output=True, text=True, timeout=1500)
     if not os.path.exists(out):
         ctx.problems.append({"kind": "repo-tests-no-report", "case": ctx.case, "traceback": p.stdout[-1500:] + p.stderr[-1500:]})
